@@ -8,7 +8,16 @@
 # not reproduce after the change is undone.
 # Scratch lives under /tmp/c18-par.* and is removed at the end (worktrees included).
 set -u
-cd "$(dirname "$0")/.."
+# bash reads a script as it goes: run from a private copy, so that editing this file while a long
+# run is in progress cannot derail the run
+if [ -z "${SENS_PAR_COPY:-}" ]; then
+  SENS_PAR_HOME="$(cd "$(dirname "$0")/.." && pwd)"
+  c=$(mktemp /tmp/sens_par.XXXXXX)
+  cp "$0" "$c"
+  SENS_PAR_COPY="$c" SENS_PAR_HOME="$SENS_PAR_HOME" exec bash "$c" "$@"
+fi
+cd "$SENS_PAR_HOME"
+rm -f "$SENS_PAR_COPY"
 VERIF="$PWD"
 LANES=5
 if [ "${1:-}" = "-j" ]; then LANES="$2"; shift 2; fi
@@ -43,7 +52,7 @@ lane() {
     fallback=""
     if ! (cd "$G" && cargo build --release --offline --quiet 2>"$G/build.log"); then
       local ok=""
-      for feats in "likelysubtags" "path_shadow" ""; do
+      for feats in "likelysubtags" "path_shadow" "" "likelysubtags nogens" "nogens"; do
         if (cd "$G" && cargo build --release --offline --quiet --no-default-features --features "$feats" 2>"$G/build.log"); then
           ok=yes; fallback=" [fallback build: features='$feats']"; break
         fi
